@@ -24,8 +24,10 @@
      block statement, the body of a switch (its items are the clauses), and the body of a clause
      (the Block after Case(..) / Default(): the renderer drops its braces);
    - Defs: the specs of `var ( .. )` and `const ( .. )`;
+   - Struct / Interface: the fields of a struct type, the methods of an interface type, wherever
+     the type stands;
    - the File: its items are the declarations (no closer).
-   MiniGo has no Struct / Interface.
+   A Dict (keyed composite literal) is not a group: it is left as it is ([dec_dict]).
 
    ONE RESTRICTION, and it is needed (Props/C15_tokens.v: C15_tokens_needed_open_item).  The body
    of a clause has no closer of its own: the text of the clause `case x: ..body..` ENDS with the
